@@ -49,6 +49,24 @@ def _top(f):
     return f
 
 
+def _loop_fold(c):
+    """c is the test of `if [not] c: ACC = X` directly inside `for X in ...:` -> (ACC, X, value kept when c holds)"""
+    p = c._parent
+    neg = False
+    if isinstance(p, ast.UnaryOp) and isinstance(p.op, ast.Not):
+        neg, p = True, p._parent
+    if not (isinstance(p, ast.If) and not p.orelse and len(p.body) == 1 and isinstance(p.body[0], ast.Assign) and
+            isinstance(p.body[0].targets[0], ast.Name) and isinstance(p.body[0].value, ast.Name)):
+        return None
+    loop = p._parent
+    if not (isinstance(loop, ast.For) and isinstance(loop.target, ast.Name) and p in loop.body):
+        return None
+    acc, x = p.body[0].targets[0].id, loop.target.id
+    if p.body[0].value.id != x:
+        return None
+    return acc, x, (acc if neg else x)
+
+
 def r1_direction(repo):
     obs = []
     sites = []
@@ -94,6 +112,17 @@ def r1_direction(repo):
                                     anchor=top.qualname)
             obs.append(Ob("C01-R1", key, _w(f, c), ok, msg))
             continue
+        # the same fold written as a loop: `acc = init; for x in [...]: if [not] x.is_subtype(acc): acc = x`
+        lf = _loop_fold(c)
+        if lf is not None and top.name == "gen_conditional":
+            acc, x, keeps_on_true = lf
+            r, a_ = src(recv), src(arg)
+            ok = call_name(c) == "is_subtype" and ((r == x and a_ == acc and keeps_on_true == acc) or
+                                                   (r == acc and a_ == x and keeps_on_true == x))
+            obs.append(Ob("C01-R1", key, _w(f, c), ok,
+                          "the conditional's type must be an upper bound of the branch types: keep the supertype in the fold "
+                          "(loop form: accumulator `%s`, element `%s`, kept when the test holds: `%s`)" % (acc, x, keeps_on_true)))
+            continue
         # bind lambda parameters through the call `fun(v, etype)`
         binding = {}
         if lam is not None and isinstance(lam._parent, ast.Assign) and isinstance(lam._parent.targets[0], ast.Name):
@@ -128,16 +157,24 @@ def r2_filtered_choice(repo):
     obs = []
     # (method, list that reaches random.choice / is returned, expected-type parameter)
     f = _m(repo, "gen_variable")
-    comp = [n for n in iter_own_nodes(f.node) if isinstance(n, ast.Assign) and isinstance(n.value, ast.ListComp)
-            and src(n.targets[0]) == "variables"]
     ok = False
-    if len(comp) == 1:
-        lc = comp[0].value
-        ifs = [src(i) for i in lc.generators[0].ifs]
-        ok = ifs == ["fun(%s, etype)" % src(lc.generators[0].target)] and src(lc.elt) == src(lc.generators[0].target)
-        ch = [c for c in calls_in(f.node) if call_name(c) == "choice"]
-        ok = ok and len(ch) == 1 and "variables" in src(ch[0].args[0]) and \
-            cfg_of(f.node).dominates(cfg_of(f.node).node(comp[0]), cfg_of(f.node).node(ch[0]))
+    ch = [c for c in calls_in(f.node) if call_name(c) == "choice"]
+    if len(ch) == 1 and "variables" in src(ch[0].args[0]):
+        # every definition of the candidate list that reaches the draw is the list filtered by the compatibility test
+        defs = cfg_of(f.node).defs_reaching("variables", ch[0])
+        ok = bool(defs)
+        for _d, lc, _k in defs:
+            if not (isinstance(lc, ast.ListComp) and len(lc.generators) == 1 and len(lc.generators[0].ifs) == 1 and
+                    src(lc.elt) == src(lc.generators[0].target)):
+                ok = False
+                continue
+            v = src(lc.generators[0].target)
+            flt = " ".join(src(lc.generators[0].ifs[0]).split())
+            # the test is the compatibility test of the variable's type against etype: through the local lambda `fun`
+            # (whose direction C01-R1 checks) or written out
+            if flt not in ("fun(%s, etype)" % v, "%s.get_type().is_assignable(etype)" % v, "%s.get_type() == etype" % v,
+                           "etype == %s.get_type()" % v):
+                ok = False
     obs.append(Ob("C01-R2", "gen_variable:candidates-filtered-by-the-compatibility-test", _w(f), ok,
                   "the variable is chosen from [v for v in variables if fun(v, etype)]"))
     f = _m(repo, "_gen_func_call_ref")
@@ -257,6 +294,14 @@ def r3_node_type_consistency(repo):
             [d[1][1] for d in cdefs if isinstance(d[1], tuple) and isinstance(d[1][1], ast.AST)]
         red_ok = any(isinstance(r, ast.Call) and call_name(r) == "reduce" and tt and ft and
                      tt[0] in src(r.args[1]) and ft[0] in src(r.args[1]) for r in red)
+        if not red_ok and tt and ft:
+            # loop form of the fold: the node type derives from both branch types and from nothing generated afresh
+            accs = {ct.id} | {d[1].id for d in cdefs if isinstance(d[1], ast.Name)}
+            for lp_ in [n for n in iter_own_nodes(f.node) if isinstance(n, ast.For)]:
+                elts = {src(e) for e in lp_.iter.elts} if isinstance(lp_.iter, (ast.List, ast.Tuple)) else set()
+                folds = [_loop_fold(c) for c in calls_in(lp_) if call_name(c) == "is_subtype"]
+                if {tt[0], ft[0]} <= elts and any(fd is not None and fd[0] in accs for fd in folds):
+                    red_ok = True
         sub_false = all(const_value(kwarg(c, "subtype", 2)) is False
                         for c in calls_in(f.node) if call_name(c) == "generate_expr" and
                         src(c.args[0]) in (tt + ft))
